@@ -3936,3 +3936,171 @@ let enc_rotate_fd cur staged budget =
     (match oc with
      | Done -> (((fout_new budget), []), Done)
      | Threw -> ((cur', staged), Threw))
+
+type minput =
+| MBad of n
+| MFile of n * val0 * rblock list
+
+(** val oval_eqb : val0 option -> val0 option -> bool **)
+
+let oval_eqb a b =
+  match a with
+  | Some x -> (match b with
+               | Some y -> val_eqb x y
+               | None -> false)
+  | None -> (match b with
+             | Some _ -> false
+             | None -> true)
+
+(** val version_of : val0 -> (val0 option * val0 option) * val0 option **)
+
+let version_of = function
+| VR fs ->
+  (match fs with
+   | [] -> ((None, None), None)
+   | a :: l ->
+     (match l with
+      | [] -> ((None, None), None)
+      | b :: l0 ->
+        (match l0 with
+         | [] -> ((None, None), None)
+         | c :: l1 ->
+           (match l1 with
+            | [] -> ((None, None), None)
+            | _ :: l2 ->
+              (match l2 with
+               | [] -> ((a, b), c)
+               | _ :: _ -> ((None, None), None))))))
+| _ -> ((None, None), None)
+
+(** val same_version : val0 -> val0 -> bool **)
+
+let same_version p q =
+  let (p0, c) = version_of p in
+  let (a, b) = p0 in
+  let (p1, c') = version_of q in
+  let (a', b') = p1 in
+  (&&) ((&&) (oval_eqb a a') (oval_eqb b b')) (oval_eqb c c')
+
+type pass1 = { p_pre : val0 option; p_params : val0 list; p_off : (n * n) list }
+
+(** val p1_step : pass1 -> minput -> pass1 **)
+
+let p1_step s = function
+| MBad _ -> s
+| MFile (name, pre, _) ->
+  (match s.p_pre with
+   | Some first ->
+     if same_version pre first
+     then { p_pre = (Some first); p_params =
+            (app s.p_params (params_of pre)); p_off = ((name,
+            (N.of_nat (length s.p_params))) :: s.p_off) }
+     else s
+   | None ->
+     { p_pre = (Some pre); p_params = (params_of pre); p_off = ((name,
+       N0) :: s.p_off) })
+
+(** val run_pass1 : minput list -> pass1 **)
+
+let run_pass1 ins =
+  fold_left p1_step ins { p_pre = None; p_params = []; p_off = [] }
+
+(** val lookup_off : (n * n) list -> n -> n option **)
+
+let rec lookup_off l name =
+  match l with
+  | [] -> None
+  | p :: r ->
+    let (n0, o) = p in if N.eqb n0 name then Some o else lookup_off r name
+
+(** val default_preamble : val0 **)
+
+let default_preamble =
+  VR ((Some (VN (Npos XH))) :: ((Some (VN N0)) :: ((Some (VN (Npos
+    XH))) :: ((Some (VL ((VR ((Some (VR ((Some (VN (Npos (XO (XO (XO (XO (XO
+    (XO (XI (XO (XO (XI (XO (XO (XO (XO (XI (XO (XI (XI (XI
+    XH)))))))))))))))))))))) :: ((Some (VN (Npos (XO (XO (XO (XO (XI (XO (XO
+    (XO (XI (XI (XI (XO (XO XH)))))))))))))))) :: ((Some (VR ((Some (VN (Npos
+    (XI (XI (XI (XI (XI (XI (XI (XI (XI (XI (XI (XI (XI (XI (XI (XI (XI
+    XH)))))))))))))))))))) :: ((Some (VN (Npos (XI (XI (XI (XI (XI (XI (XI
+    (XI (XI (XI (XI (XI (XI (XI (XI (XI XH))))))))))))))))))) :: ((Some (VN
+    (Npos (XI XH)))) :: ((Some (VN (Npos (XI XH)))) :: [])))))) :: ((Some (VL
+    ((VN N0) :: ((VN (Npos XH)) :: ((VN (Npos (XO XH))) :: ((VN (Npos (XO (XO
+    XH)))) :: ((VN (Npos (XI (XO XH)))) :: []))))))) :: ((Some (VL
+    [])) :: (None :: (None :: (None :: (None :: (None :: (None :: (None :: [])))))))))))))) :: (None :: []))) :: []))) :: []))))
+
+(** val merged_preamble : pass1 -> val0 **)
+
+let merged_preamble s =
+  match s.p_pre with
+  | Some v ->
+    (match v with
+     | VR fs ->
+       (match fs with
+        | [] -> default_preamble
+        | a :: l ->
+          (match l with
+           | [] -> default_preamble
+           | b :: l0 ->
+             (match l0 with
+              | [] -> default_preamble
+              | c :: l1 ->
+                (match l1 with
+                 | [] -> default_preamble
+                 | _ :: l2 ->
+                   (match l2 with
+                    | [] ->
+                      VR (a :: (b :: (c :: ((Some (VL s.p_params)) :: []))))
+                    | _ :: _ -> default_preamble)))))
+     | _ -> default_preamble)
+  | None -> default_preamble
+
+(** val remap : n -> rblock -> blk **)
+
+let remap off rb =
+  let b = blk_of_rb rb in
+  { b_earliest = b.b_earliest; b_bpi = (N.add off b.b_bpi); b_bp = b.b_bp;
+  b_stats = b.b_stats; b_tb = b.b_tb; b_qrs = b.b_qrs; b_aecs = b.b_aecs;
+  b_mms = b.b_mms }
+
+(** val p2_step : (n * n) list -> exporter -> minput -> exporter **)
+
+let p2_step offs x = function
+| MBad _ -> x
+| MFile (name, _, blocks) ->
+  (match lookup_off offs name with
+   | Some off ->
+     fold_left (fun x0 rb -> fst (write_block_ext x0 (remap off rb))) blocks x
+   | None -> x)
+
+(** val merge_run : minput list -> exporter **)
+
+let merge_run ins =
+  let s = run_pass1 ins in
+  fold_left (p2_step s.p_off) ins (x_new (merged_preamble s))
+
+(** val merge_bytes : minput list -> n list **)
+
+let merge_bytes ins =
+  destroy (merge_run ins)
+
+(** val count_triple : rblock -> (n * n) * n **)
+
+let count_triple rb =
+  (((N.of_nat (length rb.r_qrs)), (N.of_nat (length rb.r_aecs))),
+    (N.of_nat (length rb.r_mms)))
+
+(** val itemcount_blocks : rblock list -> ((n * n) * n) list **)
+
+let itemcount_blocks blocks =
+  map count_triple blocks
+
+(** val itemcount_total : rblock list -> (n * n) * n **)
+
+let itemcount_total blocks =
+  fold_left (fun pat rb ->
+    let (y, c) = pat in
+    let (a, b) = y in
+    let (p, z0) = count_triple rb in
+    let (x, y0) = p in (((N.add a x), (N.add b y0)), (N.add c z0))) blocks
+    ((N0, N0), N0)
